@@ -21,7 +21,7 @@ func HC13Table() {
 	}
 	cols := 2 + vChoice("cols", 2)
 	rows := 2 + vChoice("rows", 2)
-	cellLen := 1 + vChoice("cellLen", 2)
+	cellLen := vChoice("cellLen", 3) // 0: empty and one-byte cells alternate (chess-board pattern)
 	crlfMode := vChoice("crlf", 3) // 0: LF everywhere, 1: CRLF everywhere, 2: CRLF on the first line only
 	var buf []byte
 	endSecond := 0
@@ -30,7 +30,11 @@ func HC13Table() {
 			if c > 0 {
 				buf = append(buf, delim)
 			}
-			cell := vBytes("cell", cellLen, cellLen)
+			n := cellLen
+			if cellLen == 0 && (r+c)%2 == 1 {
+				n = 1
+			}
+			cell := vBytes("cell", n, n)
 			for i, b := range cell {
 				// stated restriction: cells free of quotes, line breaks and delimiters; a row does not start with '#'
 				vAssume(b != '"' && b != '\n' && b != '\r' && b != delim)
@@ -87,11 +91,16 @@ func c13Alpha(x []byte, alpha string) {
 func HC13SvConverse() {
 	maxN := vChoice("maxlen", 32)
 	x := vBytes("x", 0, maxN)
-	c13Alpha(x, ",\t\n\r#a1 ")
 	isTab := vChoice("delim", 2) == 1
 	delim := byte(',')
 	if isTab {
 		delim = '\t'
+	}
+	if vChoice("alpha", 2) == 1 {
+		// small alphabet (delimiter, line feed, one letter, blank), which reaches longer inputs
+		c13Alpha(x, string([]byte{delim, '\n', 'a', ' '}))
+	} else {
+		c13Alpha(x, ",\t\n\r#a1 ")
 	}
 	var limit uint32
 	switch vChoice("mode", 3) {
